@@ -95,6 +95,15 @@ def run(ctx):
                "other writer(s): " + ", ".join(f"{f.ident}:{n.lineno}" for f, n in writers[:4]))
     ctx.count("functions_scanned", sum(1 for _ in repo.all_functions()))
 
+    # ---- the estimate does not depend on checkpointing: a checkpoint holds a snapshot of the series
+    from .c11 import _extra_keys
+    hv = _extra_keys(repo, smc).get("history")
+    ces0 = smc.resolve("_checkpoint_extra_state")
+    oks = hv is not None and hv[0] == "f" and hv[1].endswith("deepcopy") and hv[2] and hv[2][0] == self_attr("history")
+    ctx.decide(bool(oks), "C08.ckpt", ces0.ident, loc_of(ces0), "a checkpoint stores a deep copy of the ratio series: later iterations cannot leak into it",
+               f"a checkpoint stores {T.show(hv)[:80] if hv else 'no history'}: its log_norm_ratio list is shared with the running sampler, so a run resumed from that "
+               "checkpoint (as a dictionary) sums ratios of iterations it then repeats")
+
     # ---- population and temperatures used by the ratio, per entry path
     for resumed in (False, True):
         sf = fold_sample(repo, resumed=resumed, final=False)
@@ -190,6 +199,9 @@ MUTANTS = [
     M("evidence stored after the conversion", _B, "samples.log_evidence = samples.xp.sum(", "final_samples = samples.to_standard_samples()\n        samples.log_evidence = samples.xp.sum(", "C08.sum",
       more=[("maybe_checkpoint(force=True)\n\n        final_samples = samples.to_standard_samples()", "maybe_checkpoint(force=True)\n")]),
     M("population not carried", _B, "samples = self.mutate(samples, beta)\n", "self.mutate(samples, beta)\n", "C08.flow"),
+]
+MUTANTS += [
+    M("checkpoint shares the ratio lists", _B, "history_copy = copy.deepcopy(self.history)", "history_copy = copy.copy(self.history)", "C08.ckpt"),
 ]
 NEUTRALS = [
     M("history through a local alias", _B, "self.history.log_norm_ratio.append(log_evidence_ratio)", "hist = self.history\n                hist.log_norm_ratio.append(log_evidence_ratio)"),
